@@ -1622,4 +1622,204 @@ theorem ppol_prec6_decision_counterexample :
     decision vfWitness 1 [1, 0] = some (1, 1) ∧ decision (reloaded ⟨17, 17, 17, 6, 17⟩ vfWitness) 1 [1, 0] = some (0, 0) := by
   decide +kernel
 
+/-! ### the policy loop never runs out of fuel: the model of `while (true)` is exact -/
+
+/-- the double scanner leaves a rest that is not longer than the token it was given -/
+def ScanShrinks (io : DblIO D) : Prop := ∀ t d r, io.scanD t = some (d, r) → r.length ≤ t.length
+
+def NonInc {α} (rd : Rd α) : Prop := ∀ s a s', rd s = .ok a s' → streamSize s' ≤ streamSize s
+def Dec {α} (rd : Rd α) : Prop := ∀ s a s', rd s = .ok a s' → streamSize s' < streamSize s
+
+theorem streamSize_cons (t : Tok) (ts : Stream) : streamSize (t :: ts) = t.length + 1 + streamSize ts := by
+  simp [streamSize]
+
+theorem streamSize_pushBack_le (r : Tok) (ts : Stream) : streamSize (pushBack r ts) ≤ r.length + 1 + streamSize ts := by
+  cases r with
+  | nil => simp [pushBack]
+  | cons c r => simp [pushBack, streamSize_cons]
+
+theorem streamSize_pushBack_lt (r t : Tok) (ts : Stream) (h : r.length < t.length) :
+    streamSize (pushBack r ts) < streamSize (t :: ts) := by
+  cases r with
+  | nil => simp [pushBack, streamSize_cons]
+  | cons c r => simp only [pushBack, streamSize_cons] at *; omega
+
+theorem spanP_length (p : Char → Bool) : ∀ (l : List Char), (spanP p l).1.length + (spanP p l).2.length = l.length
+  | [] => rfl
+  | c :: cs => by
+    have ih := spanP_length p cs
+    unfold spanP
+    split
+    · simp only [List.length_cons]; omega
+    · simp
+
+theorem splitSign_length (t : Tok) : (splitSign t).2.length ≤ t.length := by
+  unfold splitSign
+  split <;> simp
+
+theorem scanN_rest_lt (t r : Tok) (n : Nat) (h : scanN t = some (n, r)) : r.length < t.length := by
+  unfold scanN at h
+  simp only [] at h
+  split at h
+  · simp at h
+  · rename_i hne
+    split at h
+    · simp at h
+    · simp only [Option.some.injEq, Prod.mk.injEq] at h
+      have h1 := spanP_length isDig (splitSign t).2
+      have h2 := splitSign_length t
+      have h3 : 0 < (spanP isDig (splitSign t).2).1.length := by
+        cases hd : (spanP isDig (splitSign t).2).1 with
+        | nil => simp [hd] at hne
+        | cons a b => simp
+      rw [← h.2]
+      omega
+
+theorem dec_rdN : Dec rdN := by
+  intro s a s' h
+  cases s with
+  | nil => simp [rdN] at h
+  | cons t ts =>
+    simp only [rdN] at h
+    cases hs : scanN t with
+    | none => simp [hs] at h
+    | some v =>
+      obtain ⟨n, r⟩ := v
+      simp only [hs, R.ok.injEq] at h
+      rw [← h.2]
+      exact streamSize_pushBack_lt r t ts (scanN_rest_lt t r n hs)
+
+theorem nonInc_rdD (io : DblIO D) (hsh : ScanShrinks io) : NonInc (rdD io) := by
+  intro s a s' h
+  cases s with
+  | nil => simp [rdD] at h
+  | cons t ts =>
+    simp only [rdD] at h
+    cases hs : io.scanD t with
+    | none => simp [hs] at h
+    | some v =>
+      obtain ⟨d, r⟩ := v
+      simp only [hs, R.ok.injEq] at h
+      rw [← h.2, streamSize_cons]
+      have := streamSize_pushBack_le r ts
+      have := hsh t d r hs
+      omega
+
+theorem nonInc_of_dec {α} (rd : Rd α) (h : Dec rd) : NonInc rd := fun s a s' hh => Nat.le_of_lt (h s a s' hh)
+theorem nonInc_pure {α} (a : α) : NonInc (Rd.pure a) := by
+  intro s b s' h; simp only [pure_apply, R.ok.injEq] at h; rw [h.2]; exact Nat.le_refl _
+theorem nonInc_need (c : Bool) : NonInc (need c) := by
+  intro s b s' h
+  cases c with
+  | false => simp at h
+  | true => simp only [need_true, R.ok.injEq] at h; rw [h.2]; exact Nat.le_refl _
+theorem nonInc_bind {α β} (m : Rd α) (f : α → Rd β) (hm : NonInc m) (hf : ∀ a, NonInc (f a)) : NonInc (Rd.bind m f) := by
+  intro s b s' h
+  rw [bind_ok_iff] at h
+  obtain ⟨a, s1, h1, h2⟩ := h
+  exact Nat.le_trans (hf a s1 b s' h2) (hm s a s1 h1)
+theorem dec_bind_right {α β} (m : Rd α) (f : α → Rd β) (hm : NonInc m) (hf : ∀ a, Dec (f a)) : Dec (Rd.bind m f) := by
+  intro s b s' h
+  rw [bind_ok_iff] at h
+  obtain ⟨a, s1, h1, h2⟩ := h
+  exact Nat.lt_of_lt_of_le (hf a s1 b s' h2) (hm s a s1 h1)
+theorem dec_bind_left {α β} (m : Rd α) (f : α → Rd β) (hm : Dec m) (hf : ∀ a, NonInc (f a)) : Dec (Rd.bind m f) := by
+  intro s b s' h
+  rw [bind_ok_iff] at h
+  obtain ⟨a, s1, h1, h2⟩ := h
+  exact Nat.lt_of_le_of_lt (hf a s1 b s' h2) (hm s a s1 h1)
+theorem nonInc_rep {α} (rd : Rd α) (h : NonInc rd) : ∀ n, NonInc (rep rd n)
+  | 0 => nonInc_pure []
+  | n + 1 => nonInc_bind _ _ h (fun _ => nonInc_bind _ _ (nonInc_rep rd h n) (fun _ => nonInc_pure _))
+
+/-- reading one entry consumes at least one character (the action) -/
+theorem dec_rdEntry (io : DblIO D) (hsh : ScanShrinks io) (S A O oldH : Nat) : Dec (rdEntry io S A O oldH) :=
+  dec_bind_right _ _ (nonInc_rep _ (nonInc_rdD io hsh) S) fun _ =>
+  dec_bind_left _ _ dec_rdN fun _ => nonInc_bind _ _ (nonInc_need _) fun _ =>
+  nonInc_bind _ _ (nonInc_rep _ (nonInc_bind _ _ (nonInc_of_dec _ dec_rdN) fun _ => nonInc_bind _ _ (nonInc_need _) fun _ => nonInc_pure _) O)
+    fun _ => nonInc_pure _
+
+theorem atSign_size (s : Stream) : streamSize (atSign s).2 ≤ streamSize s := by
+  unfold atSign
+  split
+  · rename_i r ts
+    have := streamSize_pushBack_le r ts
+    simp only [streamSize_cons, List.length_cons]; omega
+  · exact Nat.le_refl _
+
+/-- with enough fuel for the stream at hand, one more unit of fuel changes nothing — success or failure -/
+theorem polLoop_fuel_step (io : DblIO D) (hsh : ScanShrinks io) (S A O : Nat) :
+    ∀ (f : Nat) (vf : VF D) (b : Bool) (o : Nat) (s : Stream),
+      2 * streamSize s + (if b then 2 else 1) ≤ f →
+      polLoop io S A O (f + 1) vf b o s = polLoop io S A O f vf b o s
+  | 0, _, b, _, _, h => by cases b <;> simp at h
+  | f + 1, vf, true, o, s, h => by
+    simp only [if_true] at h
+    cases hb : atSign s with
+    | mk b' s' =>
+      cases b' with
+      | true => simp only [polLoop, hb]
+      | false =>
+        simp only [polLoop, hb]
+        exact polLoop_fuel_step io hsh S A O f _ false _ s (by simp; omega)
+  | f + 1, vf, false, o, s, h => by
+    simp only [Bool.false_eq_true, if_false] at h
+    cases he : rdEntry io S A O o s with
+    | bad e => simp only [polLoop, he]
+    | ok e s1 =>
+      simp only [polLoop, he]
+      have h1 := dec_rdEntry io hsh S A O o s e s1 he
+      have h2 := atSign_size s1
+      exact polLoop_fuel_step io hsh S A O f _ _ o _ (by split <;> omega)
+
+/-- **the fuel of `rdPPol` is immaterial**: any larger amount gives the same result on every stream, so the model
+    is the unbounded loop of the code. -/
+theorem rdPPol_fuel_free (io : DblIO D) (hsh : ScanShrinks io) (S A O : Nat) (s : Stream) (F : Nat) (hF : 2 * streamSize s + 2 ≤ F) :
+    polLoop io S A O F (vf0 io S) true 1 s = rdPPol io S A O s := by
+  induction F with
+  | zero => omega
+  | succ F ih =>
+    by_cases h : 2 * streamSize s + 2 ≤ F
+    · rw [polLoop_fuel_step io hsh S A O F _ true 1 s (by simpa using h)]
+      exact ih h
+    · have : F + 1 = 2 * streamSize s + 2 := by omega
+      rw [this]; rfl
+
+theorem accMant_rest_le : ∀ (l : List Char) (fm fd : Bool), (accMant l fm fd).2.length ≤ l.length
+  | [], _, _ => by simp [accMant]
+  | c :: cs, fm, fd => by
+    unfold accMant
+    split
+    · have := accMant_rest_le cs true fd
+      simp only [List.length_cons]; omega
+    · split
+      · have := accMant_rest_le cs fm true
+        simp only [List.length_cons]; omega
+      · split
+        · split
+          · rename_i cs' 
+            have := spanP_length isDig cs'
+            simp only [List.length_cons]; omega
+          · rename_i cs'
+            have := spanP_length isDig cs'
+            simp only [List.length_cons]; omega
+          · have := spanP_length isDig cs
+            simp only [List.length_cons]; omega
+        · simp
+
+theorem scanDQ_rest (t r : Tok) (d : Rat) (h : scanDQ t = some (d, r)) : r = (accMant (splitSign t).2 false false).2 := by
+  unfold scanDQ at h
+  simp only [] at h
+  split at h
+  · simp at h
+  · simp only [Option.some.injEq, Prod.mk.injEq] at h
+    exact h.2.symm
+
+theorem ratIO_scanShrinks (tol : Rat) : ScanShrinks (ratIO tol) := by
+  intro t d r h
+  have h1 : r = (accMant (splitSign t).2 false false).2 := scanDQ_rest t r d h
+  have h2 := accMant_rest_le (splitSign t).2 false false
+  have h3 := splitSign_length t
+  rw [h1]; omega
+
 end AITB.Codec
